@@ -537,7 +537,7 @@ def _replay_find_link(chk, r, cj):
             jobs.append(dict(kind='find_link', images=ims, memory=d['memory'], withhold={int(k): v for k, v in d.get('withhold', {}).items()},
                              bandpass=bool(d.get('bandpass'))))
         elif 'frames' in d:
-            fr = [np.array(f, dtype=float).reshape(len(f), -1) for f in d['frames']]
+            fr = linkgen.frames_from_json(d['frames'])
             ndim = d['ndim']
             jobs.append(dict(kind=d['kind'], frames=[f.reshape(len(f), ndim) for f in fr], sr=(tuple(Fraction(x) for x in d['search_range']) if isinstance(d['search_range'], list) else Fraction(d['search_range'])),
                              memory=d['memory'], ndim=ndim, max_size=linkgen.LIMIT, strategy=d['strategy'], guess_pos=d.get('guess_pos', False)))
@@ -576,7 +576,7 @@ def _replay(chk, path):
     if any('frames' not in d for d in cj['jobs']):
         return _replay_find_link(chk, r, cj)
     for d in cj['jobs']:
-        fr = [np.array(f, dtype=float).reshape(len(f), -1) for f in d['frames']]
+        fr = linkgen.frames_from_json(d['frames'])
         ndim = d['ndim']
         jobs.append(dict(kind=d['kind'], frames=[f.reshape(len(f), ndim) for f in fr], sr=(tuple(Fraction(x) for x in d['search_range']) if isinstance(d['search_range'], list) else Fraction(d['search_range'])), memory=d['memory'], ndim=ndim,
                          max_size=linkgen.LIMIT, strategy=d['strategy']))
